@@ -889,6 +889,188 @@ def run_case(spec, pattern, seed, final='all'):
     return fails
 
 
+# ------------------------------------------------------------------------------------------------ EigenSolve: partially seeded outputs
+def eig_reference_sens(vals, lam, wl, WQ):
+    """Independent adjoint of (lam, Q) for a real symmetric pencil with simple eigenvalues, from a FULL dense eigen-decomposition
+    (numpy.linalg.eigh, Cholesky-reduced for the generalised problem), normalisation q_i.B.q_j = delta_ij, sign mean(q_i) > 0:
+       dA = sum_i [ wl_i q_i q_i^T + sum_{j != i} (q_j.w_i) / (lam_i - lam_j) q_j q_i^T ]
+       dB = sum_i [ -lam_i (the same bracket) - (w_i.q_i) / 2  q_i q_i^T ]
+    wl / WQ are the seeds on the module's eigenvalues / eigenvector columns (None = not seeded); returns (dA, dB or None)"""
+    A = dense(vals[0])
+    n = A.shape[0]
+    if len(vals) > 1:
+        B = dense(vals[1])
+        Li = np.linalg.inv(np.linalg.cholesky(B))
+        w, Y = np.linalg.eigh(Li @ A @ Li.T)
+        V = Li.T @ Y
+    else:
+        w, V = np.linalg.eigh(A)
+    V = V * np.where(V.mean(axis=0) >= 0, 1.0, -1.0)[None, :]
+    dA = np.zeros((n, n))
+    dB = np.zeros((n, n))
+    for i, li in enumerate(np.asarray(lam)):
+        mi = int(np.argmin(np.abs(w - li)))
+        qi = V[:, mi]
+        T = np.zeros((n, n))
+        if wl is not None:
+            T += wl[i] * np.outer(qi, qi)
+        if WQ is not None:
+            for j in range(n):
+                if j != mi:
+                    T += (V[:, j] @ WQ[:, i]) / (w[mi] - w[j]) * np.outer(V[:, j], qi)
+            dB -= 0.5 * (WQ[:, i] @ qi) * np.outer(qi, qi)
+        dA += T
+        dB -= w[mi] * T
+    return dA, (dB if len(vals) > 1 else None)
+
+
+def _sel(sel, m):
+    return list(range(m)) if sel == 'all' else [c % m for c in sel]
+
+
+def eig_partial_rounds(variant, seed):
+    """Rounds (design, matrices updated in place?, [seed spec, ...]); a seed spec is (eigenvalues seeded, eigenvector columns seeded), each
+    None / 'all' / tuple of indices (taken modulo the number of modes).  Within a round the matrix is set and response() is called ONCE;
+    then for every seed spec: place the seed, sensitivity(), compare, reset() -- so from the second spec on, sensitivity() runs after a
+    reset() WITHOUT a new response(), for columns that were last seeded in an earlier round for an earlier matrix."""
+    Q = lambda *c: (None, tuple(c))
+    if variant == 'subset-then-other-column':
+        return [(1, False, [(None, 'all')]), (2, False, [Q(0), Q(1), Q(2)]), (3, False, [Q(2), Q(0), Q(1, 2)]), (0, False, [('all', None), Q(1), Q(0, 2)])]
+    if variant == 'eigenvalues-then-column':
+        return [(1, False, [Q(1)]), (2, False, [('all', None), Q(1)]), (3, False, [((0,), None), ((1,), (1,)), Q(0)]), (1, False, [((2,), (2,)), Q(1)]),
+                (4, False, [((0, 2), None), Q(2), Q(0)])]
+    if variant == 'rotating-inplace':
+        return [(1, True, [(None, 'all')]), (2, True, [Q(1), Q(2)]), (3, True, [Q(2), Q(0)]), (4, True, [Q(0), Q(1)]), (5, True, [Q(1), Q(2), Q(0)])]
+    if variant == 'last-columns':
+        return [(1, False, [('all', 'all')]), (2, False, [Q(-1), Q(-2)]), (3, True, [Q(-2), Q(-1), Q(0)]), (0, False, [Q(-1), Q(-3), ('all', 'all')])]
+    if isinstance(variant, tuple) and variant[0] == 'rand':
+        rng = np.random.default_rng([seed, 77, variant[1]])
+        rounds = [(int(rng.integers(0, 6)), bool(rng.integers(0, 2)), [(None, 'all')])]
+        for _ in range(4):
+            specs = []
+            for _ in range(int(rng.integers(2, 4))):
+                lam = None if rng.random() < 0.6 else tuple(int(c) for c in rng.choice(6, int(rng.integers(1, 3)), replace=False))
+                cols = None if (lam is not None and rng.random() < 0.4) else tuple(int(c) for c in rng.choice(6, int(rng.integers(1, 3)), replace=False))
+                specs.append((lam, cols))
+            rounds.append((int(rng.integers(0, 6)), bool(rng.integers(0, 2)), specs))
+        return rounds
+    raise ValueError(variant)
+
+
+EIG_PARTIAL = ['subset-then-other-column', 'eigenvalues-then-column', 'rotating-inplace', 'last-columns']
+
+
+def _eig_seeds(seed, sid, outs, spec):
+    """Seeds that are exactly zero outside the selected eigenvalues / eigenvector columns (None: the output is not seeded at all)"""
+    lam, Q = outs[0].state, outs[1].state
+    m = lam.size
+    wl = WQ = None
+    if spec[0] is not None:
+        full = make_seed(seed, 0, sid, lam)
+        wl = np.zeros_like(full); k = _sel(spec[0], m); wl[k] = full[k]
+    if spec[1] is not None:
+        full = make_seed(seed, 1, sid, Q)
+        WQ = np.zeros_like(full); k = _sel(spec[1], m); WQ[:, k] = full[:, k]
+    return wl, WQ
+
+
+def _set_sources(src, vals, inplace):
+    for s, v in zip(src, vals):
+        old = s.state
+        if inplace and isinstance(old, np.ndarray) and isinstance(v, np.ndarray) and old.shape == v.shape and old.dtype == v.dtype:
+            old[...] = v
+        elif inplace and sps.issparse(old) and sps.issparse(v) and old.nnz == v.nnz and np.array_equal(old.indices, v.indices) \
+                and np.array_equal(old.indptr, v.indptr) and old.dtype == v.dtype:
+            old.data[...] = v.data
+        else:
+            s.state = v
+
+
+_FRESH_PART = {}
+
+
+def fresh_partial(spec, seed, k, sp):
+    """A freshly constructed network evaluated ONCE on design k with the partial seed sp (computed once per process and re-used as the
+    reference of every history step with these inputs and seeds).  Returns (snapshot, failures of the independent reference)"""
+    key = repr((spec, seed, k, sp))
+    if key not in _FRESH_PART:
+        net = make_net(spec)
+        fn2, src2, outs2, sigs2 = net.build()
+        vals = net.design(seed, k)
+        for s, v in zip(src2, vals):
+            s.state = v
+        fn2.response()
+        wl2, WQ2 = _eig_seeds(seed, 3, outs2, sp)
+        if wl2 is not None:
+            outs2[0].sensitivity = wl2
+        if WQ2 is not None:
+            outs2[1].sensitivity = WQ2
+        fn2.sensitivity()
+        snap = {nm: (dense(s.state), dense(s.sensitivity)) for nm, s in sigs2}
+        ref_fails = []
+        if spec[1] in ('sym', 'gen'):      # real symmetric pencils: the independent dense adjoint
+            ref = eig_reference_sens([dense(v) for v in vals], dense(outs2[0].state), wl2, WQ2)
+            for (nm, s2), rf in zip(sigs2[:len(src2)], ref):
+                d = differs(dense(s2.sensitivity), rf, 1e-8, none_is_zero=True)
+                if d:
+                    ref_fails.append(f'fresh network (design {k}, seed {sp}): sensitivity of {nm} differs from the independent dense adjoint: {d}')
+        _FRESH_PART[key] = (snap, ref_fails)
+    return _FRESH_PART[key]
+
+
+def eig_partial_case(spec, variant, seed):
+    """EigenSolve histories with partially seeded outputs (see eig_partial_rounds).  After every sensitivity() all states and sensitivities
+    equal those of a freshly constructed network evaluated once on the current matrices with the same seed; for real symmetric pencils the
+    matrix sensitivities also equal the independent dense adjoint (eig_reference_sens); after every reset() nothing is left."""
+    net = make_net(spec)
+    fails = []
+    where = ['']
+
+    def add(kind, what):
+        fails.append(dict(kind=kind, what=f'[{variant} {where[0]}] {what}', detail=None))
+    fn, src, outs, sigs = net.build()
+    try:
+        for ir, (k, inplace, specs) in enumerate(eig_partial_rounds(variant, seed)):
+            vals = net.design(seed, k)
+            _set_sources(src, vals, inplace)
+            fn.response()
+            for istep, sp in enumerate(specs):
+                where[0] = f'round {ir} (design {k}) step {istep} seed {sp}'
+                m = outs[0].state.size
+                sp = tuple(None if c is None else tuple(sorted(set(_sel(c, m)))) for c in sp)      # canonical form (indices modulo the number of modes)
+                wl, WQ = _eig_seeds(seed, 3, outs, sp)
+                keep = [None if w is None else w.copy() for w in (wl, WQ)]
+                if wl is not None:
+                    outs[0].sensitivity = wl
+                if WQ is not None:
+                    outs[1].sensitivity = WQ
+                fn.sensitivity()
+                snap = {nm: (dense(s.state), dense(s.sensitivity)) for nm, s in sigs}
+                snap2, ref_fails = fresh_partial(spec, seed, k, sp)
+                for what in ref_fails:
+                    add('reference', what)
+                for nm in snap2:
+                    d = differs(snap[nm][0], snap2[nm][0], net.tol)
+                    if d:
+                        add('history-state', f'state of {nm} differs from the fresh network: {d}')
+                    d = differs(snap[nm][1], snap2[nm][1], net.tol, none_is_zero=True)
+                    if d:
+                        add('history-sensitivity', f'sensitivity of {nm} differs from the fresh network: {d}')
+                for i, (s, v) in enumerate(zip(src, vals)):
+                    if not np.array_equal(dense(s.state), dense(v)):
+                        add('input-modified', f'the state of source signal {i} is no longer the value the caller set')
+                for w, w0 in zip((wl, WQ), keep):
+                    if w is not None and not np.array_equal(w, w0):
+                        add('seed-modified', 'the seed array the caller placed on an output was modified by the network')
+                fn.reset()
+                for nm, s in sigs:
+                    if not is_zero_or_none(s.sensitivity):
+                        add('reset-left-sensitivity', f'after reset() signal {nm} still carries a non-zero sensitivity')
+    except Exception as e:
+        add('exception', f'raised {type(e).__name__}: {str(e).splitlines()[0][:160] if str(e) else ""}')
+    return fails
+
+
 # ------------------------------------------------------------------------------------------------ documented memories
 def memory_case(kind, seed, damping=0.5):
     """The documented memories behave exactly as documented and are the only history dependence:
@@ -1078,6 +1260,124 @@ def primitive_case(name, arg, seed):
         m.sensitivity()
         if any(differs(dense(s.sensitivity), np.ones(2), 1e-14) for s in ins):
             bad('after reset only the new seed may contribute', [dense(s.sensitivity) for s in ins])
+    elif name == 'signal_reset_nonfinite':
+        kind, how, badkind = arg      # sensitivity kind; 'prealloc' (constructed with a sensitivity, reset()) / 'keep' (ordinary, reset(keep_alloc=True)); poison
+        bv = {'inf': np.inf, '-inf': -np.inf, 'nan': np.nan}.get(badkind)
+        shape = {'vec': (5,), 'mat': (2, 3), 'cvec': (4,), 'zerod': (), 'czerod': (), 'ivec': (4,)}.get(kind)
+        if kind in ('pyfloat', 'npfloat', 'pycomplex'):
+            conv = {'pyfloat': float, 'npfloat': np.float64, 'pycomplex': complex}[kind]
+            zero, val = conv(0.0), conv(1.5)
+            poison = conv(np.inf if badkind == 'mixed' else bv) if kind != 'pycomplex' else complex(np.inf if badkind == 'mixed' else bv, -np.inf if badkind == 'mixed' else 0.0)
+        elif kind == 'ivec':        # integer-valued sensitivity: cannot hold inf / nan, the largest representable values take their place
+            zero, val = np.zeros(shape, dtype=np.int64), np.arange(1, 5, dtype=np.int64)
+            poison = np.array([np.iinfo(np.int64).max // 4, -(np.iinfo(np.int64).max // 4), 0, 7], dtype=np.int64)
+        else:
+            cplx = kind in ('cvec', 'czerod')
+            zero = np.zeros(shape, dtype=complex if cplx else float)
+            val = np.asarray(rng.standard_normal(shape) + (1j * rng.standard_normal(shape) if cplx else 0.0))
+            poison = np.zeros(shape, dtype=zero.dtype)
+            flat = poison.reshape(-1)
+            pattern = [np.inf, np.nan, 0.0, -np.inf, 2.0, np.nan] if badkind == 'mixed' else [bv, 0.0, bv, 1.0, bv, bv]
+            flat[:] = pattern[:flat.size]
+            if cplx:
+                flat[-1] = complex(1.0, np.inf) if badkind == 'mixed' else complex(0.0, bv)
+            poison = poison.reshape(shape)
+        isarr = isinstance(zero, np.ndarray)
+        s = pym.Signal('s', 1.0, sensitivity=(zero.copy() if isarr else zero) if how == 'prealloc' else None)
+        with np.errstate(all='ignore'):
+            for rnd in range(2):          # the poison arrives in the first round; the second round must be clean
+                s.add_sensitivity(val.copy() if isarr else val)
+                if rnd == 0:
+                    s.add_sensitivity(poison.copy() if isarr else poison)
+                    if kind != 'ivec' and np.all(np.isfinite(dense(s.sensitivity))):
+                        bad('set-up: the sensitivity holds no non-finite value before reset()')
+                elif differs(dense(s.sensitivity), dense(val), 0):
+                    bad('after reset() the next add_sensitivity does not give exactly the new value (something of the earlier round is left)', dense(s.sensitivity))
+                held = s.sensitivity
+                s.reset() if how == 'prealloc' else s.reset(keep_alloc=True)
+                z = s.sensitivity
+                if z is None:
+                    bad('reset with keep_alloc must keep an allocated (zero) sensitivity, got None')
+                    break
+                zd = dense(z)
+                if zd.shape != np.shape(zero) or not np.array_equal(zd, np.zeros_like(zd)):
+                    bad(f'round {rnd}: after reset() with keep_alloc every entry of the sensitivity must be exactly 0', zd)
+                    if not isarr:
+                        break
+                if isarr and (z is not held or z.dtype != zero.dtype):
+                    bad('reset with keep_alloc must keep the allocation (same array, same dtype)', str(getattr(z, 'dtype', type(z))))
+                if not isarr and np.iscomplexobj(zd) != np.iscomplexobj(zero):
+                    bad('reset with keep_alloc changed the kind (real / complex) of a scalar sensitivity')
+    elif name == 'network_reset_nonfinite':
+        kind, variant = arg       # x -> Root (y = sqrt(x), dx = dy / (2 sqrt(x)): inf / nan where x = 0) -> y ; x has a pre-allocated sensitivity
+        class Root(pym.Module):
+            def _response(self, x):
+                return np.sqrt(x)
+
+            def _sensitivity(self, dy):
+                return dy * 0.5 / np.sqrt(self.sig_in[0].state)
+        shape = {'vec': (5,), 'cvec': (4,), 'mat': (2, 3), 'zerod': (), 'pyfloat': None}[kind]
+        cplx = kind == 'cvec'
+
+        def value(k, zeros):
+            g = np.random.default_rng([seed, 43, k])
+            if shape is None:
+                return 0.0 if zeros else float(0.5 + g.random())
+            x = np.asarray(0.5 + g.random(shape) + (1j * g.random(shape) if cplx else 0.0))
+            if zeros:
+                x.reshape(-1)[::2] = 0.0
+            return x
+
+        def seed_of(k):
+            g = np.random.default_rng([seed, 44, k])
+            if shape is None:
+                return float(1.0 + g.random())
+            w = np.asarray(1.0 + g.random(shape) + (1j * g.random(shape) if cplx else 0.0))
+            if w.ndim:
+                w.reshape(-1)[-1] = 0.0          # 0 * inf = nan where x = 0 and the seed is 0; inf where the seed is not 0
+            return w
+
+        def build():
+            x0 = value(0, False)
+            zero = 0.0 if shape is None else np.zeros(shape, dtype=complex if cplx else float)
+            sx, sy = pym.Signal('x', x0, sensitivity=zero), pym.Signal('y')
+            return pym.Network(Root(sx, sy)), sx, sy
+        fn, sx, sy = build()
+        held = sx.sensitivity
+        plan = {'poison-once': [(1, False), (2, True), (3, False), (1, False)], 'poison-twice-no-reset': [(1, False), (2, True, 2), (3, False)],
+                'poison-first': [(2, True), (1, False), (2, True), (3, False)]}[variant]
+        with np.errstate(all='ignore'):
+            for step, item in enumerate(plan):
+                k, zeros, reps = item[0], item[1], (item[2] if len(item) > 2 else 1)
+                sx.state = value(k, zeros)
+                fn.response()
+                sy.sensitivity = seed_of(k)
+                for _ in range(reps):
+                    fn.sensitivity()
+                got = dense(sx.sensitivity)
+                if zeros:
+                    if np.all(np.isfinite(got)):
+                        bad(f'set-up, step {step}: the module did not produce a non-finite sensitivity')
+                else:
+                    want = np.asarray(seed_of(k) * 0.5 / np.sqrt(value(k, False)))       # closed form; identical to what a fresh network gives
+                    fn2, sx2, sy2 = build()
+                    sx2.state = value(k, False); fn2.response(); sy2.sensitivity = seed_of(k); fn2.sensitivity()
+                    if differs(got, want, 1e-14) or differs(got, dense(sx2.sensitivity), 1e-14):
+                        bad(f'step {step}: the sensitivity of x differs from the fresh network / the closed form dy / (2 sqrt(x)) (an earlier round produced inf / nan)', got)
+                fn.reset()
+                z = sx.sensitivity
+                if z is None:
+                    bad(f'step {step}: reset() dropped the pre-allocated sensitivity of x')
+                    break
+                zd = dense(z)
+                if not np.array_equal(zd, np.zeros_like(zd)):
+                    bad(f'step {step}: after reset() every entry of the pre-allocated sensitivity of x must be exactly 0', zd)
+                    if shape is None:
+                        break
+                if shape is not None and z is not held:
+                    bad(f'step {step}: reset() replaced the pre-allocated sensitivity array of x')
+                if sy.sensitivity is not None:
+                    bad(f'step {step}: reset() left the seed on y')
     else:
         raise ValueError(name)
     return fails
